@@ -174,6 +174,9 @@ class VHDX(AlignedStream):
         return b"".join(sectors_read)
 
     def _read(self, offset: int, length: int) -> bytes:
+        # The aligned stream may request more than what's left of the disk, so clamp to the disk size
+        length = min(length, self.size - offset)
+
         sector = offset // self.sector_size
         count = (length + self.sector_size - 1) // self.sector_size
 
